@@ -66,10 +66,20 @@ theorem stepIter_q {sh sh' : Shared} {t : Tid} {it it' : Iter}
     · simp only [Option.some.injEq, Prod.mk.injEq] at h
       obtain ⟨_, rfl⟩ := h
       simp
-  · split at h <;> (
-      simp only [Option.some.injEq, Prod.mk.injEq] at h
+  · unfold step138 at h
+    split at h
+    · simp only [Option.some.injEq, Prod.mk.injEq] at h
       obtain ⟨_, rfl⟩ := h
-      simp)
+      simp
+    · split at h
+      · simp only [Option.some.injEq, Prod.mk.injEq] at h
+        obtain ⟨_, rfl⟩ := h
+        simp
+      · unfold step138ok at h
+        split at h <;> (
+          simp only [Option.some.injEq, Prod.mk.injEq] at h
+          obtain ⟨_, rfl⟩ := h
+          simp)
   · cases h
 
 /-- thread `t` may run: the invariant holds and every OTHER thread is outside the critical section -/
@@ -149,6 +159,44 @@ theorem inv_add {s : State} (hi : Inv s) (q : Query) :
     rcases hget t it h with h | ⟨rfl, rfl⟩
     · exact hi.lockinv t it h
     · simp only [PC.inCrit, Bool.false_eq_true, false_iff]
+      intro hl
+      obtain ⟨ito, hito⟩ := hi.owner _ hl
+      rw [List.getElem?_eq_none (Nat.le_refl _)] at hito; cases hito
+  · intro t hl
+    obtain ⟨ito, hito⟩ := hi.owner t hl
+    have hlt : t < s.its.length := by
+      by_cases hc : t < s.its.length
+      · exact hc
+      · rw [List.getElem?_eq_none (Nat.le_of_not_lt hc)] at hito; cases hito
+    exact ⟨ito, by simp only []; rw [List.getElem?_append_left hlt]; exact hito⟩
+
+/-- adding any thread that satisfies its own invariant and is outside the critical section keeps the invariant -/
+theorem inv_add_iter {s : State} (hi : Inv s) (it0 : Iter) (hl0 : LInv s.sh it0) (hp0 : it0.pc.inCrit = false) :
+    Inv { s with its := s.its ++ [it0] } := by
+  have hget : ∀ (t : Tid) (it : Iter), (s.its ++ [it0])[t]? = some it →
+      s.its[t]? = some it ∨ (t = s.its.length ∧ it = it0) := by
+    intro t it h
+    by_cases hlt : t < s.its.length
+    · rw [List.getElem?_append_left hlt] at h; exact Or.inl h
+    · have hge : s.its.length ≤ t := Nat.le_of_not_lt hlt
+      rw [List.getElem?_append_right hge] at h
+      by_cases e : t - s.its.length = 0
+      · rw [e] at h; simp at h; exact Or.inr ⟨Nat.le_antisymm (Nat.le_of_sub_eq_zero e) hge, h.symm⟩
+      · have : ([it0])[t - s.its.length]? = none := by
+          apply List.getElem?_eq_none
+          simp only [List.length_cons, List.length_nil]
+          exact Nat.pos_of_ne_zero e
+        rw [this] at h; cases h
+  refine ⟨hi.sinv, ?_, ?_, ?_⟩
+  · intro t it h
+    rcases hget t it h with h | ⟨_, rfl⟩
+    · exact hi.linv t it h
+    · exact hl0
+  · intro t it h
+    rcases hget t it h with h | ⟨rfl, rfl⟩
+    · exact hi.lockinv t it h
+    · rw [hp0]
+      simp only [Bool.false_eq_true, false_iff]
       intro hl
       obtain ⟨ito, hito⟩ := hi.owner _ hl
       rw [List.getElem?_eq_none (Nat.le_refl _)] at hito; cases hito
